@@ -724,6 +724,8 @@ class Replay:
         must be the first maximiser of the expectations the same object reports (nothing remembered from the first)."""
         b = self.b
         q = {"op": "predict", "m": 1}
+        if hasattr(b, "d"):
+            q = {"op": "predict", "X": [[1] * b.d]}          # Lin.tla labels carry the query rows
         work = copy.deepcopy(src)
         if b.call(work, q, self.feat)[0] != "ok" or b.call(work, label, self.feat)[0] != "ok":
             return
